@@ -49,6 +49,9 @@ CHECKS = {
  "C16": (True, "exploration", "reference-model monitor: one hostile name per tiny module in each role; syn legality of every identifier of the output, documented case rules, normalisation relation to the ASN.1 name, identifier annotation iff renamed, references spelled like the definition",
          "Exhaustive over 58 Rust keywords (strict, reserved, weak) x 7 roles plus special type names; 100k (quick) / 1M (thorough) seeded random legal ASN.1 identifiers up to 24 characters with hyphens, digits next to case changes and all-caps runs.",
          "Trusted: syn (rejects keywords and illegal identifiers), the normalisation relation (drop _ and -, lower-case, optional r_ escape). Edition 2021 keyword set (gen is an ordinary identifier). Same-scope collisions of two names that mangle alike are C01's subject.", "DESIGN.md §4 C16"),
+ "C18": (True, "exploration", "reference-model monitor: TypeScript backend output of grammar-generated module sets read by a structural TypeScript declaration parser written for this purpose (namespaces, import aliases, export type/enum/const, object types, unions, arrays, literal types, index signatures, bracket balance) and compared with the JER shape derived from the model",
+         "Held on the executions observed: for 3k (quick) / 120k (thorough) generated module sets every type assignment has exactly one exported declaration of the mangled name in its namespace with the JER shape (member order, `?` iff OPTIONAL/DEFAULT, arrays, string-valued enum members, union of single-key objects, index signature iff marker), every mentioned name resolves, imports name existing declarations and the output is bracket-balanced. EXTENSIBILITY IMPLIED without marker is a known finding.",
+         "Trusted: the TypeScript parser and JER-shape rules in c18.rs (there is no TypeScript compiler in the sandbox). Leaf type spellings (number, string, ...) are not prescribed; definitions named by a warning are not claims.", "DESIGN.md §4 C18"),
  "C19": (True, "exploration", "metamorphic monitor: item-level diff of the syn projections of the same input compiled under two configurations that differ in exactly one option, along the edges of the configuration lattice; each coordinate has an allowance predicate",
          "Held on the executions observed: 160 generated inputs x 48-point sub-lattice (quick) / 4000 x the full 192-point lattice (thorough); along every edge only the documented aspect changed: From impls exactly for alternatives with a payload type unique in their CHOICE, import lists -> wildcards for the same sibling modules, LazyLock <-> lazy_static with equal (name, type, initialiser), exactly the configured custom use lines in every module, only outer attributes of type items with the six required derives exactly once.",
          "Trusted: syn projection, the allowance predicates in c19.rs. Payload-type uniqueness is judged on the generated payload tokens with module path and Box stripped. For opaque_open_types only 'no definition changes, nothing added when turning the flag on' is asserted.", "DESIGN.md §4 C19"),
